@@ -109,7 +109,8 @@ def _task(t):
                 acc["n"] += 1
                 acc["calls"] += 4
                 acc["cmp"] += 3
-                why, cv = judge(fam, vec)
+                # v4: the other entry points on every eighth subset and on the complete one
+                why, cv = judge(fam, vec, fam != "4.0" or mask % 8 == 0 or mask == (1 << len(T.OPTIONAL[fam])) - 1)
                 if why:
                     sig = {"kind": "emitted", "family": fam}
                     if "does not match the vectorString pattern" in why and fam == "4.0":
